@@ -277,7 +277,7 @@ func checkC18(c *Ctx) {
 		}
 	}
 	sort.Strings(validators)
-	c.Floor("validation-complete", len(validators), 10, "validate* methods")
+	c.Floor("validation-complete", len(validators), 5, "validate* methods")
 	sp := &Spec{
 		Event: func(in ssa.Instruction, fr *Frame) string {
 			if ci, ok := in.(ssa.CallInstruction); ok {
@@ -368,8 +368,58 @@ func checkC18(c *Ctx) {
 
 	// 2. constraint table
 	regions := map[string]region{}
+	// Where a constraint is enforced is looked up, not assumed: the validator (a method of *Config that
+	// Validate calls) whose comparisons — its own or those of the helpers it calls — mention the field.
+	// The Validator column of the table only names the obligation.
+	var candidates []*ssa.Function
+	for _, ci := range callsIn(val) {
+		if f := StaticFn(ci); f != nil && f.Signature.Recv() != nil && QualType(namedOf(f.Signature.Recv().Type())) == "config.Config" {
+			candidates = append(candidates, f)
+		}
+	}
+	mentions := func(fn *ssa.Function, what string, depth int) bool {
+		found := false
+		var scan func(f *ssa.Function, d int)
+		seenF := map[*ssa.Function]bool{}
+		scan = func(f *ssa.Function, d int) {
+			if f == nil || seenF[f] || d > 2 || f.Blocks == nil {
+				return
+			}
+			seenF[f] = true
+			instrsOf(f, func(in ssa.Instruction) {
+				if ifi, ok := in.(*ssa.If); ok && strings.Contains(p.Desc(ifi.Cond, nil), what) {
+					found = true
+				}
+				if ci, ok := in.(ssa.CallInstruction); ok {
+					if g := StaticFn(ci); g != nil && p.IsHelios(g) && fnPkg(g) == fnPkg(fn) {
+						for _, a := range ci.Common().Args {
+							if strings.Contains(p.Desc(a, nil), what) {
+								found = true
+							}
+						}
+						scan(g, d+1)
+					}
+				}
+			})
+		}
+		scan(fn, depth)
+		return found
+	}
+	validatorOf := map[string]*ssa.Function{}
+	locate := func(row cfgRow) *ssa.Function {
+		if f := p.Fn("internal/config", "Config", row.Validator); f != nil && mentions(f, strings.TrimPrefix(row.X, "fld:"), 0) {
+			return f
+		}
+		for _, f := range candidates {
+			if mentions(f, strings.TrimPrefix(row.X, "fld:"), 0) {
+				return f
+			}
+		}
+		return p.Fn("internal/config", "Config", row.Validator)
+	}
 	for _, row := range tCfg {
-		fn := p.Fn("internal/config", "Config", row.Validator)
+		fn := locate(row)
+		validatorOf[row.Validator+"|"+row.X+"|"+row.Y] = fn
 		name := strings.TrimPrefix(row.X, cfgP)
 		if row.Y != "" && row.Y != `k:""` {
 			name += "-vs-" + strings.TrimPrefix(row.Y, cfgP)
@@ -400,7 +450,9 @@ func checkC18(c *Ctx) {
 	// 2b. a constraint of a switchable feature rejects only while the feature is enabled
 	byValidator := map[string][]cfgRow{}
 	for _, row := range tCfg {
-		byValidator[row.Validator] = append(byValidator[row.Validator], row)
+		if f := validatorOf[row.Validator+"|"+row.X+"|"+row.Y]; f != nil {
+			byValidator[f.Name()] = append(byValidator[f.Name()], row)
+		}
 	}
 	for _, vn := range validators {
 		rows := byValidator[vn]
